@@ -23,7 +23,7 @@ using namespace nodesim;
 
 namespace {
 
-enum OwnOp { PK_DAG = 300, PK_REPLAY = 301, PK_HEAVY = 302, PK_FILL = 303 };
+enum OwnOp { PK_DAG = 300, PK_REPLAY = 301, PK_HEAVY = 302, PK_FILL = 303, PK_EVICT = 304 };
 enum Topo { T_STAR = 0, T_STAR_DEP, T_RANDOM, T_CHAIN, T_GRANDPARENT, T_TWO_CHILDREN, T_UNRELATED, T_NTOPO };
 enum Mut { M_NONE = 0, M_SHUFFLE, M_SWAP, M_REVERSE, M_DUPLICATE, M_TWIN_DUP, M_CONFLICT_CHILD, M_CONFLICT_EXTRA, M_NMUT };
 enum DagFlags { DF_TEST = 1, DF_V3 = 2, DF_PRESUBMIT = 4, DF_THEN_MINE = 8, DF_MEMPOOL_CONFLICT = 16, DF_TWIN_REPLACE = 32, DF_EXT_UNCONF = 64 };
@@ -54,6 +54,7 @@ std::string Describe(const Op& op)
     case PK_HEAVY:
         snprintf(b, sizeof b, "submit_heavy_package(seed=%ld, txs=%ld, target_weight=404000%+ld, test_accept=%ld, feeclass=%ld, single=%ld)", (long)op.arg(0), (long)op.arg(1), (long)kHeavyDelta[op.mod(2, 12)], (long)(op.arg(3) & 1), (long)op.arg(4), (long)op.arg(5));
         return b;
+    case PK_EVICT: return "package [A, B, C]: A spends mempool tx X, B replaces X (and with it A), C spends A and B; A " + std::string((op.arg(1) & 1) ? "already in the mempool" : "new");
     case PK_FILL:
         snprintf(b, sizeof b, "fill_mempool(seed=%ld, coins<=%ld, chain_length=%ld, feerate=%s sat/kvB, stop_at=%ld%% of the size limit)", (long)op.arg(0), (long)op.arg(1), (long)op.arg(2), (op.arg(3) & 3) == 3 ? "5000" : "20000", (long)op.arg(4));
         return b;
@@ -116,6 +117,10 @@ Plan Gen(uint64_t seed, Tier tier)
         default: op = Op(PK_HEAVY, {(int64_t)(rng.next() >> 16), rng.range(2, 6), (int64_t)rng.below(12), (int64_t)(rng.chance(6, 100) ? 1 : 0), (int64_t)rng.pick({0, 0, 1, 2, 2, 1}), (int64_t)(rng.chance(1, 8) ? 1 : 0)}); break;
         }
         p.ops.insert(p.ops.begin() + rng.below(p.ops.size() + 1), op);
+    }
+    if (!trim_run) {
+        int nev = (int)rng.range(1, 3);
+        for (int i = 0; i < nev; ++i) p.ops.insert(p.ops.begin() + rng.below(p.ops.size() + 1), Op(PK_EVICT, {(int64_t)(rng.next() >> 16), (int64_t)rng.below(2)}));
     }
     return p;
 }
@@ -715,6 +720,34 @@ struct Sim {
         if (accepted) ctx.probe("mempool_fill_txs", accepted);
     }
 
+    /** A member that is accepted (or already in the mempool) and then removed again by a LATER member of the same package: X is in the
+     *  mempool, A spends X, B double-spends X's input with a fee that replaces X together with A, C spends A and B. Submitted as
+     *  [A, B, C]: whatever the per-transaction results say at the end must match the mempool (A is gone, C cannot be accepted). */
+    void DoEvict(const Op& op)
+    {
+        Rng r(mix64((uint64_t)op.arg(0), 0x65766963));
+        const Keyring& kr = Keys();
+        std::vector<MempoolSim::Spendable> conf;
+        for (auto& c : ms.FreeConfirmed())
+            if (kr.Classify(c.coin.spk).kind != SK::TRUE_BARE && c.coin.value > 200000) conf.push_back(c);
+        if (conf.size() < 2) return;
+        auto take = [&] { size_t k = r.below(conf.size()); auto c = conf[k]; conf.erase(conf.begin() + k); return c; };
+        const MempoolSim::Spendable cx = take(), cz = take();
+        auto out = [&](CAmount v) { return CTxOut(v, kr.Spk(r.coin() ? SK::P2WPKH : SK::P2TR, (int)r.below(N_KEYS))); };
+        auto spend_of = [&](const CTransactionRef& tx, uint32_t n) { return MempoolSim::Spendable{COutPoint(tx->GetHash(), n), RefCoin{tx->vout[n].nValue, tx->vout[n].scriptPubKey, 0, false}, false}; };
+        CTransactionRef X = ms.MakeTx({cx}, {out(cx.coin.value / 2), out(0)}, 2000, 0, 2, 0, {}, SigDefect::NONE, TS_SIMPLE);
+        if (ms.SubmitTx(X, false, TS_SIMPLE).result_type != MempoolAcceptResult::ResultType::VALID) return;
+        CTransactionRef A = ms.MakeTx({spend_of(X, 0)}, {out(0)}, 3000, 0, 2, 0, {}, SigDefect::NONE, TS_CHAIN);
+        const bool a_in_mempool = op.arg(1) & 1;
+        if (a_in_mempool && ms.SubmitTx(A, false, TS_CHAIN).result_type != MempoolAcceptResult::ResultType::VALID) return;
+        const CAmount fee_x = cx.coin.value - X->vout[0].nValue - X->vout[1].nValue, fee_a = X->vout[0].nValue - A->vout[0].nValue;
+        CTransactionRef B = ms.MakeTx({cx, cz}, {out(0)}, 5000, fee_x + fee_a + 2000, 2, 0, {}, SigDefect::NONE, TS_CONFLICT);
+        CTransactionRef C = ms.MakeTx({spend_of(A, 0), spend_of(B, 0)}, {out(0)}, 4000, 0, 2, 0, {}, SigDefect::NONE, TS_FANIN);
+        ctx.probe("package_member_evicted_by_later_member_built");
+        ms.SubmitPackage({A, B, C}, false, PS_CHILD_WITH_PARENTS);
+        if (!ms.pool().exists(A->GetHash()) && ms.pool().exists(B->GetHash())) ctx.probe("package_member_replaced_by_later_member");
+    }
+
     void Run()
     {
         ms.after_submit = [&](const SubmitRecord& r) {
@@ -727,6 +760,7 @@ struct Sim {
             case PK_REPLAY: DoReplay(op); break;
             case PK_HEAVY: DoHeavy(op); break;
             case PK_FILL: DoFill(op); break;
+            case PK_EVICT: DoEvict(op); break;
             default: ms.ExecOp(op); break;
             }
             if (op.kind >= PK_DAG) ms.cs.CheckAll(Describe(op).c_str());
